@@ -319,3 +319,281 @@ mod timeconv {
     }
 }
 pub use timeconv::run as time;
+
+// ------------------------------------------------------------------ C13 (generator)
+mod gen {
+    use super::*;
+    use futures::prelude::*;
+    use futures::task::{Context, Poll};
+    use omaha_client::async_generator::{generate, GeneratorState};
+    use std::cell::{Cell, RefCell};
+    use std::pin::Pin;
+    use std::rc::Rc;
+    use std::sync::atomic::{AtomicUsize, Ordering};
+    use std::sync::Arc;
+    use std::task::{Wake, Waker};
+
+    struct Count(AtomicUsize);
+    impl Wake for Count {
+        fn wake(self: Arc<Self>) {
+            self.0.fetch_add(1, Ordering::SeqCst);
+        }
+        fn wake_by_ref(self: &Arc<Self>) {
+            self.0.fetch_add(1, Ordering::SeqCst);
+        }
+    }
+
+    #[derive(Default)]
+    struct Gates {
+        open: [bool; 3],
+        waker: [Option<Waker>; 3],
+    }
+
+    struct GateFut(Rc<RefCell<Gates>>, usize);
+    impl Future for GateFut {
+        type Output = ();
+        fn poll(self: Pin<&mut Self>, cx: &mut Context<'_>) -> Poll<()> {
+            let mut g = self.0.borrow_mut();
+            if g.open[self.1] {
+                Poll::Ready(())
+            } else {
+                g.waker[self.1] = Some(cx.waker().clone());
+                Poll::Pending
+            }
+        }
+    }
+
+    fn yield_once() -> impl Future<Output = ()> {
+        let mut done = false;
+        future::poll_fn(move |cx: &mut Context<'_>| {
+            if !done {
+                done = true;
+                cx.waker().wake_by_ref();
+                Poll::Pending
+            } else {
+                Poll::Ready(())
+            }
+        })
+    }
+
+    type Prog = Vec<(String, usize)>;
+
+    fn prog_of(v: &Value) -> Prog {
+        v["prog"]
+            .as_array()
+            .cloned()
+            .unwrap_or_default()
+            .iter()
+            .map(|o| (o["op"].as_str().unwrap_or("R").to_string(), o["g"].as_u64().unwrap_or(0) as usize))
+            .collect()
+    }
+
+    fn make(
+        prog: Prog,
+        gates: Rc<RefCell<Gates>>,
+        pos: Rc<Cell<usize>>,
+    ) -> omaha_client::async_generator::Generator<impl Future<Output = &'static str>, u32, &'static str> {
+        generate(move |co| async move {
+            let mut co = Some(co);
+            let mut ny = 0u32;
+            let n = prog.len();
+            for (i, (op, g)) in prog.into_iter().enumerate() {
+                pos.set(i + 1);
+                match op.as_str() {
+                    "Y" => {
+                        ny += 1;
+                        co.as_mut().expect("yield after drop").yield_(ny).await;
+                    }
+                    "SW" => yield_once().await,
+                    "W" => GateFut(gates.clone(), g).await,
+                    "DH" => {
+                        co.take();
+                    }
+                    _ => {}
+                }
+            }
+            pos.set(n + 1);
+            "done"
+        })
+    }
+
+    pub fn run(vec_path: &str, out_path: &str) {
+        let mut out = Out::new(out_path);
+        for v in vectors(vec_path) {
+            out.n += 1;
+            let r = guarded(|| -> Vec<(String, Value)> {
+                let mut bad = vec![];
+                let hist = v["hist"].as_array().cloned().unwrap_or_default();
+                // ---- raw generator: every poll result, wake-up and task position against the model
+                {
+                    let gates = Rc::new(RefCell::new(Gates::default()));
+                    let pos = Rc::new(Cell::new(0usize));
+                    let cnt = Arc::new(Count(AtomicUsize::new(0)));
+                    let waker = Waker::from(cnt.clone());
+                    let mut s = Box::pin(make(prog_of(&v), gates.clone(), pos.clone()));
+                    let mut woken = false;
+                    for (i, h) in hist.iter().enumerate() {
+                        let before = cnt.0.load(Ordering::SeqCst);
+                        if h["a"] == "poll" {
+                            woken = false;
+                            let mut cx = Context::from_waker(&waker);
+                            let (res, val) = match s.as_mut().poll_next(&mut cx) {
+                                Poll::Pending => ("pending", 0),
+                                Poll::Ready(None) => ("none", 0),
+                                Poll::Ready(Some(GeneratorState::Yielded(x))) => ("item", x),
+                                Poll::Ready(Some(GeneratorState::Complete(_))) => ("complete", 0),
+                            };
+                            if h["res"] != res || h["v"].as_u64() != Some(val as u64) {
+                                bad.push((format!("poll #{} returned {} {} (model: {} {})", i + 1, res, val, h["res"], h["v"]), json!(i)));
+                                break;
+                            }
+                            let ip = if pos.get() == 0 { 1 } else { pos.get() };
+                            if h["ip"].as_u64() != Some(ip as u64) {
+                                bad.push((format!("after poll #{} the task is at op {} (model: {}): the producer ran ahead of / behind its consumer", i + 1, ip, h["ip"]), json!(i)));
+                                break;
+                            }
+                        } else {
+                            let g = h["g"].as_u64().unwrap_or(0) as usize;
+                            let w = {
+                                let mut gs = gates.borrow_mut();
+                                gs.open[g] = true;
+                                gs.waker[g].take()
+                            };
+                            if let Some(w) = w {
+                                w.wake();
+                            }
+                        }
+                        if cnt.0.load(Ordering::SeqCst) != before {
+                            woken = true;
+                        }
+                        if h["wokenAfter"] == true && !woken {
+                            bad.push((format!("lost wake-up at step #{}: the model's stream is woken, the implementation's is not", i + 1), json!(i)));
+                            break;
+                        }
+                    }
+                }
+                // ---- into_yielded: items then end of stream (the completion is swallowed)
+                {
+                    let gates = Rc::new(RefCell::new(Gates::default()));
+                    let pos = Rc::new(Cell::new(0usize));
+                    let waker = futures::task::noop_waker();
+                    let prog = prog_of(&v);
+                    let unit_prog = prog.clone();
+                    let g2 = gates.clone();
+                    let p2 = pos.clone();
+                    let gen = generate(move |co| async move {
+                        let mut co = Some(co);
+                        let mut ny = 0u32;
+                        for (i, (op, g)) in unit_prog.into_iter().enumerate() {
+                            p2.set(i + 1);
+                            match op.as_str() {
+                                "Y" => {
+                                    ny += 1;
+                                    co.as_mut().expect("yield after drop").yield_(ny).await;
+                                }
+                                "SW" => yield_once().await,
+                                "W" => GateFut(g2.clone(), g).await,
+                                "DH" => {
+                                    co.take();
+                                }
+                                _ => {}
+                            }
+                        }
+                    });
+                    let mut s = Box::pin(gen.into_yielded());
+                    for (i, h) in hist.iter().enumerate() {
+                        if h["a"] == "poll" {
+                            let mut cx = Context::from_waker(&waker);
+                            let res = match s.as_mut().poll_next(&mut cx) {
+                                Poll::Pending => "pending".to_string(),
+                                Poll::Ready(None) => "none".to_string(),
+                                Poll::Ready(Some(x)) => format!("item{}", x),
+                            };
+                            let exp = match h["res"].as_str().unwrap_or("") {
+                                "item" => format!("item{}", h["v"]),
+                                "complete" => "none".to_string(),
+                                x => x.to_string(),
+                            };
+                            if res != exp {
+                                bad.push((format!("into_yielded poll #{} returned {} (model: {})", i + 1, res, exp), json!(i)));
+                                break;
+                            }
+                        } else {
+                            let g = h["g"].as_u64().unwrap_or(0) as usize;
+                            let w = {
+                                let mut gs = gates.borrow_mut();
+                                gs.open[g] = true;
+                                gs.waker[g].take()
+                            };
+                            if let Some(w) = w {
+                                w.wake();
+                            }
+                        }
+                    }
+                    let _ = prog;
+                }
+                // ---- into_complete: polled only when woken; must complete once every gate has been fired
+                {
+                    let gates = Rc::new(RefCell::new(Gates::default()));
+                    let pos = Rc::new(Cell::new(0usize));
+                    let cnt = Arc::new(Count(AtomicUsize::new(0)));
+                    let waker = Waker::from(cnt.clone());
+                    let prog = prog_of(&v);
+                    let needs: Vec<usize> = prog.iter().filter(|(o, _)| o == "W").map(|(_, g)| *g).collect();
+                    let mut f = Box::pin(make(prog, gates.clone(), pos.clone()).into_complete());
+                    let mut done = None;
+                    let mut seen = 0;
+                    let mut first = true;
+                    let mut fires: Vec<usize> = hist.iter().filter(|h| h["a"] == "fire").map(|h| h["g"].as_u64().unwrap() as usize).collect();
+                    for g in needs {
+                        if !fires.contains(&g) {
+                            fires.push(g);
+                        }
+                    }
+                    let mut fi = 0;
+                    for _ in 0..200 {
+                        let c = cnt.0.load(Ordering::SeqCst);
+                        if first || c != seen {
+                            first = false;
+                            seen = c;
+                            let mut cx = Context::from_waker(&waker);
+                            if let Poll::Ready(r) = f.as_mut().poll(&mut cx) {
+                                done = Some(r);
+                                break;
+                            }
+                            continue;
+                        }
+                        if fi < fires.len() {
+                            let g = fires[fi];
+                            fi += 1;
+                            let w = {
+                                let mut gs = gates.borrow_mut();
+                                gs.open[g] = true;
+                                gs.waker[g].take()
+                            };
+                            if let Some(w) = w {
+                                w.wake();
+                            }
+                        } else {
+                            break;
+                        }
+                    }
+                    if done != Some("done") {
+                        bad.push(("into_complete did not complete although every awaited gate was fired (lost wake-up or deadlock)".to_string(), json!(pos.get())));
+                    }
+                }
+                bad
+            });
+            match r {
+                Ok(bads) => {
+                    for (w, g) in bads {
+                        out.bad(&w, &v, g);
+                    }
+                }
+                Err(p) => out.bad("panic", &v, json!(p)),
+            }
+        }
+        out.finish();
+    }
+}
+pub use gen::run as generator;
